@@ -76,6 +76,33 @@ def _items(e, closure=False):
     return rec(e)[0]
 
 
+def _arith(e):
+    """arithmetic with powers of two in one spelling (`x >> k` = `x / 2^k`, `x & (2^k - 1)` = `x % 2^k`, `x << k` = `x * 2^k`) and
+    constants by value (`MAX_RUN_LENGTH` = 4, `MAX_RUN_LENGTH - 1` = 3)"""
+    from ..sym import fold_const
+    if not isinstance(e, tuple) or not e or not isinstance(e[0], str):
+        return e
+    v = fold_const(e) if e[0] in ("const", "bin") else None
+    if v is not None:
+        return ("const", v, None, "")
+    if e[0] == "bin" and e[1] in ("Shr", "Shl", "BitAnd"):
+        a, b = _arith(e[2]), _arith(e[3])
+        cb = b[1] if b[0] == "const" and isinstance(b[1], int) else None
+        ca = a[1] if a[0] == "const" and isinstance(a[1], int) else None
+        if e[1] == "Shr" and cb is not None and cb < 64:
+            return ("bin", "Div", a, ("const", 1 << cb, None, ""))
+        if e[1] == "Shl" and cb is not None and cb < 64:
+            return ("bin", "Mul", a, ("const", 1 << cb, None, ""))
+        if e[1] == "BitAnd":
+            if cb is not None and cb > 0 and (cb & (cb + 1)) == 0:
+                return ("bin", "Rem", a, ("const", cb + 1, None, ""))
+            if ca is not None and ca > 0 and (ca & (ca + 1)) == 0:
+                return ("bin", "Rem", b, ("const", ca + 1, None, ""))
+        return ("bin", e[1], a, b)
+    return tuple(_arith(y) if isinstance(y, tuple) and y and isinstance(y[0], str) else
+                 (tuple(_arith(z) if isinstance(z, tuple) else z for z in y) if isinstance(y, tuple) else y) for y in e)
+
+
 def _orient(e):
     """a top-level comparison in one orientation (`b >= a` is `a <= b`, `!(a > b)` is `a <= b`; `==`/`!=` operands ordered)"""
     from .features import _cmp_of
@@ -90,7 +117,7 @@ def _orient(e):
 
 def pred_key(prog, e, truth, closure=False):
     from .features import expand
-    e = _items(e, closure)
+    e = _arith(_items(e, closure))
     try:
         # a predicate that only forwards to another one (`is_near_gt(a, b)` = `is_near_lt(b, a)`) is that other one
         if strip(e)[0] == "call" and prog.get(strip(e)[1]) is not None and prog.get(strip(e)[1]).locals[0]["ty"] == "bool":
